@@ -464,6 +464,17 @@ def generate(X):
             "name": name, "cls": cls.__name__, "dims": [X.jdim(X.dim_vec(d)) for d in dims], "dims_str": [str(d) for d in dims],
             "params": [[p, X.bits(v)] for p, v in params], "branches": jb,
         })
+    # what `np.power` does with a unit that has an offset (`Unit.__pow__` through `_power_unit`):
+    # raises (which class) or silently drops the offset
+    ERRS = {"UnitOperationError", "UnitConversionError", "UnitParseError", "InvalidUnitOperation", "UnitInconsistencyError",
+            "InvalidUnitEquivalence", "TypeError", "ValueError", "RuntimeError", "KeyError"}
+    try:
+        np.power(unyt.unyt_array(np.array([1.0]), "degC"), 4)
+        pow_refuses = None
+    except Exception as e:  # noqa: BLE001 - the class is the datum
+        pow_refuses = type(e).__name__
+    J["pow_refuses"] = pow_refuses
+    lean_pow = "none" if pow_refuses is None else f"(some .{pow_refuses})" if pow_refuses in ERRS else "(some .Other)"
     crow = []
     for cname in sorted(used):
         q = used[cname]
@@ -481,7 +492,10 @@ def generate(X):
         "/-- `equivalence_registry`, in registration order: type_name, class, `_dims`, keyword\n"
         "    parameters of `_convert` with the bits of their defaults, and for every ordered pair of\n"
         "    distinct `_dims` the recorded ufunc chain in copy mode and in in-place mode -/\n"
-        "def equivalences : List EquivRec := [\n" + ",\n".join(recs) + "\n]\n\nend Unyt.Generated\n"
+        "def equivalences : List EquivRec := [\n" + ",\n".join(recs) + "\n]\n\n"
+        "/-- what `np.power` / `np.sqrt` do with a unit that has an offset (probe: `np.power(1 degC, 4)`):\n"
+        "    `some err` = raise `err`, `none` = drop the offset silently -/\n"
+        f"def powRefuses : Option Err := {lean_pow}\n\nend Unyt.Generated\n"
     )
     X.write_if_changed(os.path.join(X.GEN, "EquivFormulas.lean"), text)
     return J
